@@ -188,8 +188,8 @@ func MessageBuilders(t Tier) []MsgBuilder {
 			return upd([]bgp.PathNLRI{v4nlri(px.String(), 1), v4nlri(q.String(), 2)}, base(), []bgp.PathNLRI{v4nlri(q.String(), 3)})
 		})
 	}
-	// 800 /24 prefixes = 3200 bytes (fits 4096); 1100 = 4400 bytes (needs extended message)
-	for _, n := range []int{800, 1100} {
+	// 450 /24 prefixes = 1800 bytes, 3600 with ADD-PATH (fits 4096); 1100 = 4400 / 8800 bytes (needs extended message)
+	for _, n := range []int{450, 1100} {
 		add("update", fmt.Sprintf("nlri-x%d", n), false, ASAny, n > 1000, func() bm {
 			var l []bgp.PathNLRI
 			for i := 0; i < n; i++ {
